@@ -60,7 +60,7 @@ C17_SAMPLE = dict(
 # C11 / C13: the wrappers of every retrospective generator / smoother (core.py).  `f` is the abstract method
 # (self._generate_plates / self._smooth_plates): ANY function of the screen and the unread recorded answers `ds`.
 _C11_WRAP = dict(
-    file="src/batchie/core.py", out="SrcRetro.v", imports="Model.Retro",
+    file="src/batchie/core.py", out="SrcRetro.v", imports="Model.Encode Model.Screen Model.Retro",
     pyparams=["self", "screen", "rng"],
     params=[("f", "inner"), ("screen", "screen_t"), ("ds", "list draw")],
     returns="screen_t", return_state=["ds"],
@@ -81,4 +81,46 @@ C11_SMOOTH_PLATES = dict(
     _C11_WRAP, cls="RetrospectivePlateSmoother", func="smooth_plates", name="src_smooth_plates",
     state_calls=[("self._smooth_plates(__s, rng)", ["ds"], "f {s} ds", "screen_t", {"s": "screen_t"})])
 
-ALL = [C16_FILTER, C17_SAMPLE, C11_GENERATE_PLATES, C11_SMOOTH_PLATES]
+# MergeMinPlateSmoother (retrospective.py).  A Plate is its selection vector (`bvec`) into its parent screen `s`, which
+# Plate.merge mutates in place: the parent of every plate the method handles is `current_screen` (they all come from
+# current_screen.plates), so the primitives that read or write the parent name that variable.
+C13_MERGEMIN_SAMPLE_ID = dict(
+    file="src/batchie/retrospective.py", cls="MergeMinPlateSmoother", func="_get_plate_sample_id",
+    out="SrcRetro.v", imports="Model.Encode Model.Screen Model.Retro", name="src_merge_min_get_plate_sample_id",
+    pyparams=["self", "plate"], params=[("s", "screen_t"), ("plate", "bvec")], returns="name", vars={},
+    prims=[
+        ("__p.unique_sample_ids", "plate_unique_samples {p} s", "list name", {"p": "bvec"}),
+        ("len(__l)", "zlen {l}", "Z"),
+        ("__l[0]", "!first_item {l}", "name", {"l": "list name"}),
+    ],
+    raises=[("only valid for one-sample-per-plate designs", 4)],
+)
+C13_MERGEMIN = dict(
+    file="src/batchie/retrospective.py", cls="MergeMinPlateSmoother", func="_smooth_plates",
+    out="SrcRetro.v", imports="Model.Encode Model.Screen Model.Retro", name="src_merge_min_smooth_plates",
+    pyparams=["self", "screen", "rng"], unused_params=["rng"],
+    params=[("min_size", "Z"), ("screen", "screen_t"), ("ds", "list draw"), ("fuel", "nat")],
+    returns="screen_t", return_state=["ds"], while_fuel="fuel",
+    vars={"current_screen": "screen_t", "sample_id": "name", "plate_heap": "list bvec", "smallest_plate": "bvec",
+          "second_smallest_plate": "bvec", "merged_plate": "bvec"},
+    eqb={"name": "name_eqb"},
+    prims=[
+        ("self.min_size", "min_size", "Z"),
+        ("__s.unique_sample_ids", "sample_names {s}", "list name", {"s": "screen_t"}),   # ids = ranks of the sorted names
+        ("__s.plates", "plates_of {s}", "list bvec", {"s": "screen_t"}),
+        ("self._get_plate_sample_id(__p)", "!src_merge_min_get_plate_sample_id current_screen' {p}", "name", {"p": "bvec"}),
+        ("len(__l)", "zlen {l}", "Z"),
+        ("__p.size", "plate_size {p}", "Z", {"p": "bvec"}),
+    ],
+    effects=[
+        ("heapq.heapify(plate_heap)", "plate_heap'", "{state}"),                    # heap = the list of its items (see pop)
+        ("heapq.heappush(plate_heap, __x)", "plate_heap'", "{state} ++ [{x}]"),
+    ],
+    # heapq.heappop: the recorded answer says which item came out; refused unless it is a smallest one (heapq's contract)
+    state_calls=[("heapq.heappop(plate_heap)", ["plate_heap'", "ds"], "pop plate_heap' ds", "bvec")],
+    # Plate.merge: relabels the union in the parent, returns the merged plate
+    effect_calls=[("__b.merge(__a)", "current_screen'", "snd (merge {b} {a} {state})", "fst (merge {b} {a} {state})", "bvec")],
+    ignore=["logger.info(__a)"],
+)
+
+ALL = [C16_FILTER, C17_SAMPLE, C11_GENERATE_PLATES, C11_SMOOTH_PLATES, C13_MERGEMIN_SAMPLE_ID, C13_MERGEMIN]
